@@ -26,7 +26,8 @@ bool RealDouble::__eq__(const Basic &o) const
 {
     if (is_a<RealDouble>(o)) {
         const RealDouble &s = down_cast<const RealDouble &>(o);
-        return this->i == s.i;
+        // NaN doubles are structurally equal to each other
+        return this->i == s.i or (std::isnan(this->i) and std::isnan(s.i));
     }
     return false;
 }
@@ -37,6 +38,12 @@ int RealDouble::compare(const Basic &o) const
     const RealDouble &s = down_cast<const RealDouble &>(o);
     if (i == s.i)
         return 0;
+    // NaN sorts after every other double and equal to NaN
+    if (std::isnan(i) or std::isnan(s.i)) {
+        if (std::isnan(i) and std::isnan(s.i))
+            return 0;
+        return std::isnan(i) ? 1 : -1;
+    }
     return i < s.i ? -1 : 1;
 }
 
